@@ -41,6 +41,19 @@ def one_linear(ctx: Ctx, spec, dtype):
     else:
         n = rng.choice([2, 3, 5])
         J = m_int(rng, m, n, kind="plain")
+    if spec.name == "PCGrad" and rng.random() < 0.35:
+        # a row orthogonal to all the others in non-trivial coordinates (0.1*0.3 - 0.3*0.1: the COMPUTED inner products are
+        # rounding noise whose sign changes with the scaling), listed before >= 3 mutually conflicting rows: the number of
+        # random draws must not depend on such signs, or equal seeds stop meaning equal projection orders
+        m = rng.choice([4, 5])
+        n = 4
+        J = [[Fr(1, 10), Fr(3, 10), Fr(0), Fr(0)]]
+        for i in range(m - 1):
+            a = Fr(rng.randint(1, 9), 10)
+            J.append([Fr(3, 10) * a, -Fr(1, 10) * a, Fr(rng.choice([-1, 1]) * rng.randint(1, 9), 7), Fr(rng.randint(-9, 9), 7)])
+        if rng.random() < 0.5:
+            J[0], J[1] = J[1], J[0]
+        ctx.count("family", "PCGrad:orthogonal-up-to-noise")
     if any(all(v == 0 for v in r) for r in J):
         return
     Jt = to_tensor(J, torch.float64)
